@@ -56,7 +56,7 @@ func (fo *FO) valueProv(p *pw.Path, evs []*pw.Event, cl *foClass, v *pw.Val) pro
 			return prov{"Built-unchecked", false, "builder value used although the builder error is not known to be nil on this path"}
 		}
 	case pw.KField:
-		if v.Field != nil && v.Field.Name() == "val" && cl != nil && cl.found && v.Src == cl.kl {
+		if v.Field != nil && fname(v.Field) == "val" && cl != nil && cl.found && v.Src == cl.kl {
 			if fo.readAfterRecv(evs, cl, v) {
 				return prov{"Published", true, ""}
 			}
@@ -76,7 +76,7 @@ func (fo *FO) valueProv(p *pw.Path, evs []*pw.Event, cl *foClass, v *pw.Val) pro
 func (fo *FO) readAfterRecv(evs []*pw.Event, cl *foClass, v *pw.Val) bool {
 	recv := false
 	for _, ev := range evs {
-		if ev.Kind == pw.EvRecv && ev.Field != nil && ev.Field.Name() == "lock" && ev.Key == cl.kl {
+		if ev.Kind == pw.EvRecv && ev.Field != nil && fname(ev.Field) == "lock" && ev.Key == cl.kl {
 			recv = true
 		}
 		if ev.Kind == pw.EvFieldRead && ev.Value == v {
@@ -120,7 +120,7 @@ func (fo *FO) errProv(p *pw.Path, evs []*pw.Event, cl *foClass, v *pw.Val, depth
 	case pw.KAssert, pw.KConv:
 		return fo.errProv(p, evs, cl, v.Src, depth+1)
 	case pw.KField:
-		if v.Field != nil && v.Field.Name() == "err" && cl != nil && cl.found && v.Src == cl.kl {
+		if v.Field != nil && fname(v.Field) == "err" && cl != nil && cl.found && v.Src == cl.kl {
 			if fo.readAfterRecv(evs, cl, v) {
 				return prov{"Published", true, ""}
 			}
@@ -228,7 +228,7 @@ func (c *Ctx) c02NoRecover() {
 func lastFieldWrite(evs []*pw.Event, base *pw.Val, field string) *pw.Event {
 	var last *pw.Event
 	for _, ev := range evs {
-		if ev.Kind == pw.EvFieldWrite && ev.Field != nil && ev.Field.Name() == field && ev.Recv == base {
+		if ev.Kind == pw.EvFieldWrite && ev.Field != nil && fname(ev.Field) == field && ev.Recv == base {
 			last = ev
 		}
 	}
